@@ -37,6 +37,10 @@ type Scenario struct {
 	RecvMax     uint16 // 0 = absent (v5) / not applicable (v3)
 	MaxInflight uint16
 	Redis       bool
+	// DupPublisher: the messages come from an MQTT client that sets the DUP flag on every PUBLISH (it re-sends after a
+	// lost connection; the broker has never seen these identifiers, so they are new messages). What the publisher's
+	// flag says about ITS transmission must not show on the broker's own first transmission to the subscriber.
+	DupPublisher bool `json:",omitempty"`
 	IE          bool   `json:",omitempty"` // mqtt.inflight_expiry at its default (30 s) instead of 0: replays rewrite the stored deadline
 	QoS         []byte // QoS of each published message
 	Plans       []AckPlan
@@ -50,6 +54,7 @@ func Generate(rng *rand.Rand, maxMsgs int) Scenario {
 		sc.RecvMax = []uint16{0, 1, 2, 3, 10, 65535}[rng.Intn(6)]
 	}
 	sc.IE = rng.Intn(2) == 0
+	sc.DupPublisher = rng.Intn(3) == 0
 	n := 3 + rng.Intn(maxMsgs-2)
 	for i := 0; i < n; i++ {
 		sc.QoS = append(sc.QoS, byte(1+rng.Intn(2)))
@@ -550,7 +555,25 @@ func RunScenario(sc *Scenario) (fs []finding, obs map[string]int, err error) {
 		return nil, nil, err
 	}
 	rn.inPos = rn.after(mqttx.SUBACK)
+	var dupPub *wire.Client
+	if sc.DupPublisher {
+		dupPub, err = wire.Dial("dup-publisher", b.Addr, mqttx.V311)
+		if err != nil {
+			return nil, nil, err
+		}
+		defer dupPub.Close()
+		if _, err := dupPub.Connect(&mqttx.Packet{ClientID: "dup-publisher", CleanStart: true}, step); err != nil {
+			return nil, nil, err
+		}
+		rn.obs["scenarios_with_dup_flag_publisher"]++
+	}
 	for i, q := range sc.QoS {
+		if dupPub != nil && q > 0 {
+			if _, err := dupPub.Publish(&mqttx.Packet{Topic: "t", QoS: q, Dup: true, Payload: []byte(fmt.Sprintf("m/%d", i+1))}, step); err != nil {
+				return nil, nil, fmt.Errorf("publisher with DUP flag: %w", err)
+			}
+			continue
+		}
 		b.Srv.Publisher().Publish(&gmqtt.Message{Topic: "t", Payload: []byte(fmt.Sprintf("m/%d", i+1)), QoS: q})
 	}
 	n := len(sc.QoS)
